@@ -16,6 +16,8 @@ type modTargetInfo struct {
 	direct   bool // target is a leaf field of the struct a parameter points to
 	// inTarget(r) for each heap, given the environment
 	pred func(env *Env, r Term) Term
+	// exact addresses (one per heap of heaps), or nil when the target is not a fixed set of addresses
+	exact func(env *Env) []Term
 }
 
 // paramNames of a function: receiver and parameters in SSA order.
@@ -101,7 +103,7 @@ func (a *Act) modTarget0(callee *ssa.Function, e Expr) *modTargetInfo {
 			t := a.specType(callee, ix.X)
 			switch u := types.Unalias(t).Underlying().(type) {
 			case *types.Slice:
-				info.heaps = a.leafHeaps(u.Elem())
+				info.heaps = a.elemHeaps(u.Elem())
 				info.pred = func(env *Env, r Term) Term {
 					s := env.value(env.eval(ix.X))
 					return and(not(eq(app("sarr", s.T), "nil")), eq(app("rid", r), app("rid", app("sarr", s.T))))
@@ -222,6 +224,17 @@ func (a *Act) modTarget0(callee *ssa.Function, e Expr) *modTargetInfo {
 				cs = append(cs, eq(r, lh.addr(b.T)))
 			}
 			return or(cs...)
+		}
+		info.exact = func(env *Env) []Term {
+			b := env.eval(se.X)
+			if !(b.AtRef || b.Sort == "Ref") {
+				fail("modifies %s: base is not addressable", e)
+			}
+			var out []Term
+			for _, lh := range heaps {
+				out = append(out, lh.addr(b.T))
+			}
+			return out
 		}
 		return info
 	}
